@@ -64,6 +64,9 @@ class ExprMixin(EngineBase):
             return self.external_value(r[1], node)
         if r[0] == "const":
             _, expr, mod = r
+            ov = getattr(self.reg, "global_overrides", {}).get((mod.name, name))
+            if ov is not None:
+                return ov
             return self.eval_const_expr(expr, mod, node)
         raise Unsupported(f"cannot use global {name}", node)
 
@@ -558,8 +561,25 @@ class ExprMixin(EngineBase):
                 if model is not None:
                     yield from model.getattr(self, st, r, attr, node, ctx)
                     return
-        # the field does not exist: Python raises AttributeError
+        # the field does not exist on this symbolic object.  If some method of the class assigns it, the declared
+        # shape is merely behind the code (new field): undecidable here, never a violation.
+        if isinstance(cls, ClassInfo) and self.class_assigns_field(cls, attr):
+            raise Unsupported(f"field {cls.name}.{attr} is assigned by the class but is not in the declared shape "
+                              f"(contract shapes need updating)", node)
         yield st.with_note(f"missing attribute {attr}"), Raised(ExcVal("AttributeError", attr))
+
+    def class_assigns_field(self, cls: ClassInfo, attr: str) -> bool:
+        for c in cls.mro():
+            if not isinstance(c, ClassInfo):
+                continue
+            if attr in c.annotations:
+                return True
+            for m in c.methods.values():
+                for n in ast.walk(m.node):
+                    if isinstance(n, ast.Attribute) and n.attr == attr and isinstance(n.ctx, ast.Store) \
+                            and isinstance(n.value, ast.Name) and n.value.id == "self":
+                        return True
+        return False
 
     # -------------------------------------------------------------- subscript
     def eval_Subscript(self, e: ast.Subscript, st: State, ctx: Ctx) -> Res:
